@@ -4,7 +4,7 @@
 From Coq Require Import List Bool Arith NArith Lia.
 Import ListNotations.
 Require Import PPCore Memo Md5 Str Mask.
-Open Scope N_scope.
+Local Open Scope N_scope.
 
 (* _generate_bit_from_hash(salt, string): int(md5((salt+string).encode()).hexdigest()[-1], 16) & 1 *)
 Definition hash_bit (salt : str) (s : str) : option bool :=
